@@ -199,7 +199,7 @@ CLAIMS = {
 }
 
 TECHNIQUE = ("Lean 4 machine-checked proof over a model of the code; tie = translators (funfit.py, dataset tables, vector "
-             "arithmetic, the loops of the window strategies, the two-pointer scans, the effect order of the Weaver methods, the protocol of the dataset loader, the array helpers regenerated into Lean and proved equal to the model) + "
+             "arithmetic, the loops of the window strategies, the two-pointer scans, the effect order of the Weaver methods, the protocol of the dataset loader, the array helpers, the content of the Weaver methods, the process functions, the control flow of the matching, the parameter handling of the recreate strategies and the interval view regenerated into Lean and proved equal to the model) + "
              "differential correspondence of the native model driver with /repo on generated inputs, memory layouts, "
              "object histories, thread schedules and interpreter settings")
 
@@ -243,6 +243,30 @@ def main():
                      "overwritten in program order), proved equal to the closed form the theorems are about "
                      "(TWV.Properties.RfaImp), regenerated from rfa.py's AST by translator T4 and proved equal to that model on "
                      "every run (TWV.Tie.RfaLoops); the driver answers every case with both models.")
+        if pid in ("C02", "C08", "C09", "C11", "C12", "C13", "C14", "C15", "C16", "C20"):
+            text += (" What every state-changing Weaver method computes and stores (which library function on which "
+                     "attributes, in which order, with which arguments; the state left behind by a failing call) is "
+                     "regenerated from weaver.py's AST by translator T9 and proved equal to the state machine Weaver.step of "
+                     "the model for all states and arguments on every run (TWV.Tie.WeaverStep).")
+        if pid in ("C11", "C13", "C14", "C15", "C17", "C20"):
+            text += (" process.truncate, trend / linear_trend, _piecewise_constant_interpolate, the interpolate dispatcher, "
+                     "the noise formula of noise_gauss and average are regenerated from process.py's AST by translator T10 "
+                     "and proved equal to the model for all inputs on every run (TWV.Tie.ProcessFns).")
+        if pid in ("C01", "C02", "C03", "C20"):
+            text += (" sum_over_indices, the interval loop of match.py (closed windows sharing their end samples, kernel "
+                     "call bound against its signature) and the four ways of designating fixed points, with the errors "
+                     "raised, are regenerated by translator T11 and proved equal to loop / fixedPoints / matchRef for all "
+                     "inputs on every run (TWV.Tie.MatchFlow).")
+        if pid in ("C04", "C05", "C06", "C07", "C20"):
+            text += (" The constructors of the window strategies (a from alpha or given, int(), the clamp, a_l, a_r, b), "
+                     "get_adaptive_transition_points and the frames of PiecewiseConstantRFA / FunctionRFA are regenerated "
+                     "from rfa.py's AST by translator T12 and proved equal to deriveA / deriveB / windowsFixed / adaptiveAt "
+                     "/ windowsAdaptive for all parameters on every run (TWV.Tie.RfaParams).")
+        if pid in ("C17",):
+            text += (" class IntervalArray (item access with Python's negative-index rules, the NaN-padded and the closed "
+                     "row layouts, nr_of_full_intervals, the delegations to the array helpers) is regenerated from "
+                     "interval.py's AST by translator T13 and proved equal to the model for all arrays on every run "
+                     "(TWV.Tie.IntervalArray).")
         checks.append({
             "property_id": pid,
             "quick_cmd": f"./check {pid} --tier quick",
